@@ -652,6 +652,8 @@ def gen_dilute(world, draw, profile):
         return None
     mode = draw(st.sampled_from(profile.get('dilute_modes', ['lower'] * 6 + ['higher', 'equal'])))
     f = draw(st.floats(0.05, 0.95)) if mode == 'lower' else draw(st.floats(1.05, 1.5)) if mode == 'higher' else 1.0
+    if mode == 'slightly':
+        f = 1 - 10 ** draw(st.floats(-4, -2))          # a little below the current concentration
     c = draw(basic.conc_spelling(cur * f, num, den, cfg.wv))
     return {'op': 'dilute', 'obj': ci, 'solute': world.by_name[solute], 'conc': c.text, 'solvent': solvent,
             'name': world.fresh_name('dil') if (profile.get('dilute_new_name', True) and draw(st.integers(0, 2)) == 0)
